@@ -1,7 +1,27 @@
 (* C11 — DAQmx raw data is decoded at the declared buffer, stride, offset and type.
-   FULL STATEMENT (DESIGN.md section 7 C11): daqmx_addressing.
-   Proved so far (Proofs/DaqmxProofs.v): selecting a scaler's byte columns from
-   the row matrix is direct addressing into the flat buffer. *)
+   FULL STATEMENT (DESIGN.md section 7 C11): daqmx_addressing — the value of
+   scaler s of channel ch at row i of chunk j is the typed value at
+     data_position + j * chunk_bytes + buffer_base(b) + i * width(b) + byte_offset(s)
+   (digital lines: bit (bit_offset mod 8) of the value at byte bit_offset / 8).
+   PROVED below for the eager reader model (Model/Layout.v, read_segment_chunks /
+   read_daqmx_chunk) as [daqmx_segment_addressing] (channels of type DaqMxRawData:
+   raw_scaler_data[scale_id]) and [daqmx_segment_addressing_typed] (channels whose
+   type is their single scaler's type: raw data), from:
+     - the row matrix of a buffer is strided direct addressing and has exactly
+       the complete rows present (rows_are_strided, rows_complete,
+       rows_count_available: a truncated buffer yields only complete rows);
+     - column selection = direct addressing (column_direct_addressing);
+     - scaler_values = typed value / addressed bit at each row and nothing else
+       (scaler_direct_addressing, scaler_decodable_iff);
+     - buffers read one after another = windows at the running sum of
+       rows * width (daqmx_buffers_direct, read_rows_consumed);
+     - the dictionary bookkeeping files each scaler under (path, scale id).
+   Hypotheses that are explicit: paths distinct within the segment, scale ids
+   distinct within a channel, widths and lengths non-negative.
+   Still PARTIAL w.r.t. the property's last sentence: "lazy windows and chunk
+   streams equal slices of the eager result" is C03/C04's statement and is
+   covered here only by the correspondence check; buffer dimensions
+   (get_buffer_dimensions) enter as the hypothesis [buffer_dims objs = Ok dims]. *)
 From Coq Require Import List ZArith.
 Import ListNotations.
 From NpTdms Require Import Base.Bytes Base.Res Model.Tokens Model.SegState Model.Layout Model.Reader
@@ -15,4 +35,188 @@ Theorem rows_are_strided : forall (fuel : nat) (width : Z) (buf : bytes) (i : na
     row = read_at (Z.of_nat i * width) width buf.
 Proof. exact items_of_nth. Qed.
 
+(* the matrix has exactly the complete rows of the buffer *)
+Theorem rows_complete : forall (width : Z) (buf : bytes),
+    0 < width -> Z.of_nat (length (items width buf)) = blen buf / width.
+Proof. exact items_length. Qed.
+
+(* a buffer of n rows of w bytes at [base], possibly cut short by the end of
+   the data: the complete rows among the bytes present *)
+Theorem rows_count_available : forall (w n base : Z) (cur : bytes),
+    0 < w -> 0 <= n -> 0 <= base ->
+    Z.of_nat (length (items w (read_at base (w * n) cur)))
+    = Z.min (w * n) (blen cur - Z.min base (blen cur)) / w.
+Proof. exact DaqmxProofs.rows_count_available. Qed.
+
+Theorem rows_count_full : forall (w n base : Z) (cur : bytes),
+    0 < w -> 0 <= n -> 0 <= base -> base + w * n <= blen cur ->
+    Z.of_nat (length (items w (read_at base (w * n) cur))) = n.
+Proof. exact DaqmxProofs.rows_count_full. Qed.
+
+Theorem column_direct_addressing : forall (e : endian) (dt : Z) (fuel : nat) (width : Z) (buf : bytes)
+                                          (off sz : Z) (i : nat),
+    0 < width -> 0 <= off -> off + sz <= width ->
+    (i < length (items_of fuel width buf))%nat ->
+    nth_error (column_values e dt (items_of fuel width buf) off sz) i
+    = Some (canon_value e dt (read_at (Z.of_nat i * width + off) sz buf)).
+Proof. exact DaqmxProofs.column_direct_addressing. Qed.
+
+(* the denotation of a scaler at row i of a buffer starting at [base] *)
+Theorem scaler_value_at_unfold : forall e kind s dt sz base width buf i,
+    scaler_value_at e kind s dt sz base width buf i =
+    if kind =? DIGITAL_LINE_SCALER
+    then digital_bit (sc_off s mod 8)
+                     (canon_value e dt (read_at (base + Z.of_nat i * width + sc_off s / 8) sz buf))
+    else canon_value e dt (read_at (base + Z.of_nat i * width + sc_off s) sz buf).
+Proof. reflexivity. Qed.
+
+Theorem scaler_direct_addressing : forall (e : endian) (kind : Z) (s : scaler) (fuel : nat) (width : Z)
+                                          (buf : bytes) (dt sz : Z) (vs : list bytes),
+    0 < width -> 0 <= sc_off s ->
+    daqmx_type (sc_type s) = Some dt -> tds_size dt = Some (Some sz) ->
+    scaler_values e kind s (items_of fuel width buf) width = Ok vs ->
+    length vs = length (items_of fuel width buf) /\
+    forall i, (i < length (items_of fuel width buf))%nat ->
+              nth_error vs i = Some (scaler_value_at e kind s dt sz 0 width buf i).
+Proof. exact DaqmxProofs.scaler_direct_addressing. Qed.
+
+Theorem scaler_decodable_iff : forall (e : endian) (kind : Z) (s : scaler) (rows : list bytes)
+                                      (width dt sz : Z),
+    daqmx_type (sc_type s) = Some dt -> tds_size dt = Some (Some sz) ->
+    ((exists vs, scaler_values e kind s rows width = Ok vs) <->
+     (if kind =? DIGITAL_LINE_SCALER then sc_off s / 8 else sc_off s) + sz <= width).
+Proof. exact scaler_values_ok_iff. Qed.
+
+(* read_interleaved_segment_bytes consumes min(width * nrows, available) bytes *)
+Theorem read_rows_consumed : forall (w n : Z) (cur : bytes),
+    0 <= w * n -> blen (snd (read_rows w n cur)) = blen cur - Z.min (w * n) (blen cur).
+Proof. exact DaqmxProofs.read_rows_consumed. Qed.
+
+(* buffers read sequentially = buffers addressed from the chunk base
+   ([daqmx_buffers_at] takes buffer k's rows from
+    items w_k (read_at (base + sum_{j<k} w_j * n_j) (w_k * n_k) buf)) *)
+Theorem daqmx_buffers_direct : forall (e : endian) (objs : list sobj) dims bi base buf data sdata,
+    0 <= base -> Forall (fun d => 0 <= fst d /\ 0 <= snd d) dims ->
+    daqmx_buffers e objs dims bi (drop base buf) data sdata
+    = daqmx_buffers_at e objs dims bi base buf data sdata.
+Proof. exact DaqmxProofs.daqmx_buffers_direct. Qed.
+
+(* [holds path id vs c]: chunk c has, under channel [path], scaler data whose
+   entry for scale id [id] is [vs];
+   [buffer_base dims k] = sum over the first k buffers of width * rows;
+   [chunk_bytes dims]   = sum over all buffers of width * rows. *)
+Theorem holds_unfold : forall path id vs c,
+    holds path id vs c <-> exists l, alookup path c = Some (CScalers l) /\ zfind id l = Some vs.
+Proof. intros; reflexivity. Qed.
+
+Theorem buffer_base_unfold : forall dims k,
+    buffer_base dims k = zsum (map (fun d => snd d * fst d) (firstn k dims)).
+Proof. reflexivity. Qed.
+
+Theorem chunk_bytes_unfold : forall dims,
+    chunk_bytes dims = zsum (map (fun d => snd d * fst d) dims).
+Proof. reflexivity. Qed.
+
+(* one chunk *)
+Theorem daqmx_chunk_addressing : forall e objs cur c cur1 dims o q s k n w dt sz,
+    read_daqmx_chunk e objs cur = Ok (c, cur1) ->
+    buffer_dims objs = Ok dims ->
+    Forall (fun d => 0 <= fst d /\ 0 <= snd d) dims ->
+    In o objs -> NoDup (map so_path objs) -> so_daqmx o = Some q -> so_dtype o = Some T_DAQMX ->
+    In s (dq_scalers q) -> NoDup (map sc_id (dq_scalers q)) ->
+    nth_error dims k = Some (n, w) -> sc_buf s = Z.of_nat k ->
+    0 < w -> 0 <= sc_off s ->
+    daqmx_type (sc_type s) = Some dt -> tds_size dt = Some (Some sz) ->
+    exists vs,
+      holds (so_path o) (sc_id s) vs c /\
+      length vs = length (items w (read_at (buffer_base dims k) (w * n) cur)) /\
+      forall i, (i < length vs)%nat ->
+                nth_error vs i = Some (scaler_value_at e (dq_kind q) s dt sz (buffer_base dims k) w cur i).
+Proof. exact DaqmxProofs.daqmx_chunk_addressing. Qed.
+
+(* all chunks of a segment; [cur] is the file from the segment's data_position on *)
+Theorem daqmx_segment_addressing : forall sg cur cs cur' dims o q s k n w dt sz j c,
+    seg_layout sg = Ok LDaqmx ->
+    read_segment_chunks sg cur = Ok (cs, cur') ->
+    buffer_dims (data_objs (sg_objs sg)) = Ok dims ->
+    Forall (fun d => 0 <= fst d /\ 0 <= snd d) dims ->
+    In o (data_objs (sg_objs sg)) -> NoDup (map so_path (data_objs (sg_objs sg))) ->
+    so_daqmx o = Some q -> so_dtype o = Some T_DAQMX ->
+    In s (dq_scalers q) -> NoDup (map sc_id (dq_scalers q)) ->
+    nth_error dims k = Some (n, w) -> sc_buf s = Z.of_nat k ->
+    0 < w -> 0 <= sc_off s ->
+    daqmx_type (sc_type s) = Some dt -> tds_size dt = Some (Some sz) ->
+    nth_error cs j = Some c ->
+    let base := Z.of_nat j * chunk_bytes dims + buffer_base dims k in
+    exists vs,
+      holds (so_path o) (sc_id s) vs c /\
+      length vs = length (items w (read_at base (w * n) cur)) /\
+      forall i, (i < length vs)%nat ->
+                nth_error vs i
+                = Some (scaler_value_at (toc_endian (sg_toc sg)) (dq_kind q) s dt sz base w cur i).
+Proof. exact DaqmxProofs.daqmx_segment_addressing. Qed.
+
+(* channels whose data type is their single scaler's type: plain raw data *)
+Theorem daqmx_segment_addressing_typed : forall sg cur cs cur' dims o q s dto k n w dt sz j c,
+    seg_layout sg = Ok LDaqmx ->
+    read_segment_chunks sg cur = Ok (cs, cur') ->
+    buffer_dims (data_objs (sg_objs sg)) = Ok dims ->
+    Forall (fun d => 0 <= fst d /\ 0 <= snd d) dims ->
+    In o (data_objs (sg_objs sg)) -> NoDup (map so_path (data_objs (sg_objs sg))) ->
+    so_daqmx o = Some q -> so_dtype o = Some dto -> dto <> T_DAQMX -> dq_scalers q = [s] ->
+    nth_error dims k = Some (n, w) -> sc_buf s = Z.of_nat k ->
+    0 < w -> 0 <= sc_off s ->
+    daqmx_type (sc_type s) = Some dt -> tds_size dt = Some (Some sz) ->
+    nth_error cs j = Some c ->
+    let base := Z.of_nat j * chunk_bytes dims + buffer_base dims k in
+    exists vs,
+      alookup (so_path o) c = Some (CData vs) /\
+      length vs = length (items w (read_at base (w * n) cur)) /\
+      forall i, (i < length vs)%nat ->
+                nth_error vs i
+                = Some (scaler_value_at (toc_endian (sg_toc sg)) (dq_kind q) s dt sz base w cur i).
+Proof. exact DaqmxProofs.daqmx_segment_addressing_typed. Qed.
+
+(* a concrete big-endian segment: two buffers (2 x 4 and 3 x 3 bytes), two
+   chunks, int16 / uint8 / digital-line scalers (values in Proofs/DaqmxProofs.v) *)
+Section Examples.
+Import String.
+Local Open Scope string_scope.
+Example c11_segment_example :
+  buffer_dims [ex_oa; ex_ob; ex_oc] = Ok [(2, 4); (3, 3)] /\
+  read_segment_chunks ex_seg ex_data =
+  Ok ([ [(hex "2f2761", CScalers [(0, [hex "0201"; hex "1211"]); (1, [hex "0403"; hex "1413"])]);
+         (hex "2f2762", CScalers [(0, [hex "a1"; hex "b1"; hex "c1"])]);
+         (hex "2f2763", CScalers [(0, [hex "00"; hex "00"; hex "00"])])];
+        [(hex "2f2761", CScalers [(0, [hex "2221"; hex "3231"]); (1, [hex "2423"; hex "3433"])]);
+         (hex "2f2762", CScalers [(0, [hex "04"; hex "ff"; hex "01"])]);
+         (hex "2f2763", CScalers [(0, [hex "01"; hex "01"; hex "00"])])] ], []) /\
+  (* chunk 1, buffer 1 (base 17 + 8), row 1, byte offset 1: address 17 + 8 + 1*3 + 1 = 29 *)
+  scaler_value_at BE FORMAT_CHANGING_SCALER (mkScaler 0 1 1 0 0) 5 1
+                  (1 * chunk_bytes [(2, 4); (3, 3)] + buffer_base [(2, 4); (3, 3)] 1) 3 ex_data 1
+  = hex "ff" /\
+  read_at 29 1 ex_data = hex "ff" /\
+  (* the digital line at the same row: bit 2 of byte 29 *)
+  scaler_value_at BE DIGITAL_LINE_SCALER (mkScaler 0 1 10 0 0) 5 1
+                  (1 * chunk_bytes [(2, 4); (3, 3)] + buffer_base [(2, 4); (3, 3)] 1) 3 ex_data 1
+  = hex "01".
+Proof. exact daqmx_segment_example. Qed.
+End Examples.
+
 Print Assumptions rows_are_strided.
+Print Assumptions rows_complete.
+Print Assumptions rows_count_available.
+Print Assumptions rows_count_full.
+Print Assumptions column_direct_addressing.
+Print Assumptions scaler_value_at_unfold.
+Print Assumptions scaler_direct_addressing.
+Print Assumptions scaler_decodable_iff.
+Print Assumptions read_rows_consumed.
+Print Assumptions daqmx_buffers_direct.
+Print Assumptions holds_unfold.
+Print Assumptions buffer_base_unfold.
+Print Assumptions chunk_bytes_unfold.
+Print Assumptions daqmx_chunk_addressing.
+Print Assumptions daqmx_segment_addressing.
+Print Assumptions daqmx_segment_addressing_typed.
+Print Assumptions c11_segment_example.
